@@ -47,9 +47,10 @@ func init() {
 			}
 			return []runner.Phase{
 				{Name: "tls-table", Variant: "race", Cases: c20tlsCases(), Run: c20tlsCase, CaseTimeout: 120 * time.Second,
-					Required: []string{"tls_sessions", "verify_expected", "no_verify_expected", "handshakes_completed", "handshakes_rejected_by_client", "caller_config_compared", "per_node_names", "client_cert_presented", "two_contact_points", "ssl_options_reused_after_change", "caller_rootcas_plus_ca_path"}},
+					Required: []string{"tls_sessions", "verify_expected", "no_verify_expected", "handshakes_completed", "handshakes_rejected_by_client", "caller_config_compared", "per_node_names", "client_cert_presented", "two_contact_points", "ssl_options_reused_after_change", "caller_rootcas_plus_ca_path", "contact_points_given_by_name_verified"}},
 				{Name: "bad-files", Variant: "race", Cases: 6 * len(c20badFiles), Run: c20badFileCase, CaseTimeout: 120 * time.Second,
 					Required: []string{"bad_file_cases"}},
+				{Name: "auth-per-host", Variant: "race", Cases: 36, Run: c20perHostAuth, CaseTimeout: 120 * time.Second, Required: []string{"per_host_auth_sessions", "tokens_checked"}},
 				{Name: "auth", Variant: "race", Cases: na, Run: c20authCase, CaseTimeout: 120 * time.Second,
 					Required: []string{"auth_sessions", "approved_class", "unapproved_class", "no_authenticator_configured", "no_authenticator_vs_known_class", "auth_not_demanded", "tokens_checked"}},
 			}
@@ -245,7 +246,7 @@ func (d *c20dialer) snapshot() (log []c20hs, dials int) {
 
 // ---- TLS table ---------------------------------------------------------------------------------
 
-var c20dims = []int{3, 2, 2, 3, 3, 5, 4} // cfgKind, ehv, serverName, hostForm, trust, serverCert, clientCert
+var c20dims = []int{3, 2, 2, 3, 3, 7, 4} // cfgKind, ehv, serverName, hostForm, trust, serverCert, clientCert
 
 func c20tlsCases() int {
 	n := 1
@@ -292,6 +293,9 @@ func c20tlsCase(c *runner.Ctx, i int) {
 	}
 	if certKind == 4 && hostForm != 0 {
 		return // swapped certificates need the two-node form
+	}
+	if certKind >= 5 && hostForm != 2 {
+		return // name-without-address / address-without-name differ from the other kinds only for a host given by name
 	}
 	pki, err := c20getPKI(c)
 	if err != nil {
@@ -358,6 +362,15 @@ func c20tlsCase(c *runner.Ctx, i int) {
 			id = ident{dns: []string{"cass.internal"}}
 		case 4:
 			id = ids[(k+1)%len(ids)]
+		case 5:
+			// the certificate names the host (or, for a node known by address only, some name) but no address
+			id = ident{dns: append([]string{}, id.dns...)}
+			if len(id.dns) == 0 {
+				id.dns = []string{fmt.Sprintf("node%d.example", k)}
+			}
+		case 6:
+			// the certificate covers the address only, not the name the host was given by
+			id = ident{ips: id.ips}
 		}
 		tc, _, _, err := pki.issue(ca, fmt.Sprintf("node%d", k), id.dns, id.ips, false)
 		if err != nil {
@@ -422,7 +435,10 @@ func c20tlsCase(c *runner.Ctx, i int) {
 		if serverName != "" {
 			nameOK = kindOf[k] == 3
 		} else {
-			nameOK = kindOf[k] == 0 || kindOf[k] == 2
+			// without an explicit server name the certificate has to be valid for what the host is dialled as:
+			// its name if it was given by name, else its address
+			byName := len(ids[k].dns) > 0
+			nameOK = kindOf[k] == 0 || kindOf[k] == 2 || (kindOf[k] == 5 && byName) || (kindOf[k] == 6 && !byName)
 		}
 		ok := !verify || (trusted && nameOK)
 		nodeOK[ids[k].ips[0].String()] = ok
@@ -433,7 +449,7 @@ func c20tlsCase(c *runner.Ctx, i int) {
 	expectOK := clientOK && anyContactOK
 	key := fmt.Sprintf("Config=%s EnableHostVerification=%v ServerName=%q hosts=%v trust=%s server-cert=%s%s client-cert=%s",
 		[]string{"nil", "InsecureSkipVerify:false", "InsecureSkipVerify:true"}[cfgKind], ehv, serverName, hosts,
-		[]string{"Config.RootCAs", "CaPath", "none"}[trust], []string{"own-identity", "other-name", "untrusted-CA", "server-name-only", "swapped-between-nodes"}[certKind],
+		[]string{"Config.RootCAs", "CaPath", "none"}[trust], []string{"own-identity", "other-name", "untrusted-CA", "server-name-only", "swapped-between-nodes", "name-without-address", "address-without-name"}[certKind],
 		[]string{"", "", "(first node only; the second has a valid certificate of its own)"}[contacts],
 		[]string{"none", "configured+required", "configured", "required-but-none"}[clientKind])
 	if contacts > 0 {
@@ -522,7 +538,25 @@ func c20tlsCase(c *runner.Ctx, i int) {
 	c.Add("handshakes_completed", int64(completed))
 	c.Add("handshakes_rejected_by_client", int64(failed))
 	wit := map[string]interface{}{"case": key, "verify_expected": verify, "handshakes": sample, "dials": dials, "create_session_error": fmt.Sprint(err)}
+	// a host given by name, verification on, no explicit server name: the name is what the certificate is checked
+	// against, so the handshake with the contact point names it (SNI)
+	if hostForm == 2 && verify && serverName == "" && len(log) > 0 {
+		c.Add("contact_points_given_by_name_verified", 1)
+		named := false
+		for _, h := range log {
+			if h.sni == "localhost" {
+				named = true
+			}
+		}
+		if !named {
+			c.Violation("C20:tls:host-name-not-used", fmt.Sprintf("none of the %d handshakes with a contact point given as \"localhost\" named it: the certificate was checked against something else (%s)", len(log), key), wit)
+		}
+	}
+	// (the pools dial a node by the address the cluster reports for it; a certificate that names the host but not
+	// its address decides the contact-point handshake only, which the check above covers)
+	sniOnly := certKind == 5
 	switch {
+	case sniOnly:
 	case expectOK && sess == nil:
 		c.Violation("C20:tls:valid-setup-refused", fmt.Sprintf("session creation failed although the table and the certificates allow it: %v (%s)", err, key), wit)
 	case !expectOK && sess != nil:
@@ -538,7 +572,7 @@ func c20tlsCase(c *runner.Ctx, i int) {
 	case clientOK && verify && failedOnGood > 0:
 		c.Violation("C20:tls:valid-certificate-rejected", fmt.Sprintf("%d handshakes were rejected although that node's certificate is valid for that node (%s)", failedOnGood, key), wit)
 	}
-	if expectOK && sess != nil && len(ids) > 1 {
+	if expectOK && sess != nil && len(ids) > 1 && !sniOnly {
 		c.Add("per_node_names", 1)
 		for _, id := range ids {
 			if !nodeOK[id.ips[0].String()] {
@@ -550,7 +584,7 @@ func c20tlsCase(c *runner.Ctx, i int) {
 		}
 	}
 	if sess != nil {
-		if expectOK {
+		if expectOK && !sniOnly {
 			if qerr := sess.Query("LIST over tls").Exec(); qerr != nil {
 				c.Violation("C20:tls:session-unusable", fmt.Sprintf("a query over the TLS session failed: %v (%s)", qerr, key), wit)
 			}
@@ -866,5 +900,116 @@ func c20authCase(c *runner.Ctx, i int) {
 	}
 	if c.WantSample() {
 		c.Sample(map[string]interface{}{"case": key, "approved": approved, "session_created": sess != nil, "auth_responses": len(tokens), "error": fmt.Sprint(err)})
+	}
+}
+
+// c20perHostAuth: two nodes behind one address, told apart by their port, and an AuthProvider that decides per host
+// (that is what it is handed the *HostInfo for): each node is sent the credentials chosen for it - or nothing.
+func c20perHostAuth(c *runner.Ctx, i int) {
+	r := c.Rng
+	version := 3 + i%3
+	variant := i % 3
+	cl := fakenode.NewCluster(0)
+	ip := net.IPv4(10, 0, 0, 1).To4()
+	a := cl.AddNode(ip, "dc1", "rack1", []string{"0"})
+	b := cl.AddNode(ip, "dc1", "rack1", []string{"1000"})
+	b.Port = 9043
+	classA := c20defaultApproved[r.Intn(len(c20defaultApproved))]
+	classB := classA
+	if variant == 2 {
+		classB = "com.example.OtherAuthenticator"
+	}
+	for _, n := range []*fakenode.Node{a, b} {
+		class := classA
+		if n == b {
+			class = classB
+		}
+		n.OnHandshake = func(sc *fakenode.ServerConn, op byte) bool {
+			if op != cqlref.OpStartup {
+				return false
+			}
+			reqs := sc.AllRequests()
+			f, _ := cqlref.BuildFrame(sc.Version, reqs[len(reqs)-1].Header.Stream, cqlref.OpAuthenticate, nil, cqlref.BodyString(class), nil)
+			sc.WriteReply(reqs[len(reqs)-1], f)
+			return true
+		}
+	}
+	alice := gocql.PasswordAuthenticator{Username: "alice", Password: fmt.Sprintf("pw-a-%08x", r.Uint32())}
+	bob := gocql.PasswordAuthenticator{Username: "bob", Password: fmt.Sprintf("pw-b-%08x", r.Uint32())}
+	if variant == 2 {
+		// node B's class is approved for alice's list only (had the provider chosen alice for B); bob's list is the default one
+		alice.AllowedAuthenticators = []string{classA, classB}
+	}
+	cfg := newCfg(cl, version)
+	order := [][]string{{"10.0.0.1:9042", "10.0.0.1:9043"}, {"10.0.0.1:9043", "10.0.0.1:9042"}}[(i/3)%2]
+	cfg.Hosts = order
+	cfg.DisableInitialHostLookup = true
+	cfg.NumConns = 1 + r.Intn(2)
+	cfg.ReconnectInterval = 20 * time.Millisecond
+	cfg.AuthProvider = func(h *gocql.HostInfo) (gocql.Authenticator, error) {
+		if h.Port() == 9042 {
+			return alice, nil
+		}
+		switch variant {
+		case 0:
+			return nil, nil
+		default:
+			return bob, nil
+		}
+	}
+	key := fmt.Sprintf("v%d two nodes at 10.0.0.1 (ports 9042 / 9043, contact points %v), AuthProvider: alice for :9042, %s for :9043 (which asks for %q)", version, order,
+		[]string{"no authenticator", "bob", "bob (default approved list)"}[variant], classB)
+	c.Eval(runner.H("c20perhost", version, variant, order[0]), true)
+	c.Add("per_host_auth_sessions", 1)
+	var sess *gocql.Session
+	var err error
+	c.Guard("CreateSession", func() { sess, err = cfg.CreateSession() })
+	if sess != nil {
+		for k := 0; k < 6; k++ {
+			sess.Query(fmt.Sprintf("LIST per host %d", k)).Exec()
+			time.Sleep(10 * time.Millisecond)
+		}
+	}
+	tokA := append(append(append([]byte{0}, alice.Username...), 0), alice.Password...)
+	tokB := append(append(append([]byte{0}, bob.Username...), 0), bob.Password...)
+	var gotA, gotB [][]byte
+	for _, sc := range cl.AllConns() {
+		for _, rq := range sc.AllRequests() {
+			if rq.Header.Op != cqlref.OpAuthResponse {
+				continue
+			}
+			if sc.Node == a {
+				gotA = append(gotA, rq.Token)
+			} else {
+				gotB = append(gotB, rq.Token)
+			}
+		}
+	}
+	if sess != nil {
+		c.Guard("Session.Close", sess.Close)
+	}
+	wit := map[string]interface{}{"case": key, "create_session_error": fmt.Sprint(err), "auth_responses_to_9042": len(gotA), "auth_responses_to_9043": len(gotB)}
+	c.Add("tokens_checked", int64(len(gotA)+len(gotB)))
+	for _, tkn := range gotA {
+		if !bytes.Equal(tkn, tokA) {
+			c.Violation("C20:auth:credentials-of-another-host", fmt.Sprintf("the node at :9042 was sent a token that is not the one the AuthProvider chose for it (%s)", key), wit)
+			break
+		}
+	}
+	for _, tkn := range gotB {
+		switch {
+		case variant == 0:
+			c.Violation("C20:auth:unsolicited-credentials", fmt.Sprintf("the node at :9043, for which the AuthProvider has no authenticator, was sent an AUTH_RESPONSE (%s)", key), wit)
+		case variant == 2:
+			c.Violation("C20:auth:credentials-to-unapproved-class", fmt.Sprintf("the node at :9043 names a class that is not on the approved list of the authenticator chosen for it, and was sent an AUTH_RESPONSE (%s)", key), wit)
+		case !bytes.Equal(tkn, tokB):
+			c.Violation("C20:auth:credentials-of-another-host", fmt.Sprintf("the node at :9043 was sent a token that is not the one the AuthProvider chose for it (%s)", key), wit)
+		default:
+			continue
+		}
+		break
+	}
+	if len(gotA) == 0 && sess != nil {
+		c.Violation("C20:auth:no-credentials-sent", fmt.Sprintf("the node at :9042 was never sent the credentials chosen for it although a session exists (%s)", key), wit)
 	}
 }
